@@ -708,7 +708,8 @@ class ApplicationStartJobs(ApplicationJobs):
             self.logger.trace('ApplicationStartJobs.on_command_added: searching a Supvisors instance among'
                               f' {self.identifiers} to start {command.process.namespec} with load={load}'
                               f' / load_request_map={load_request_map}')
-            identifier = get_supvisors_instance(self.supvisors, self.starting_strategy, self.identifiers,
+            identifier = get_supvisors_instance(self.supvisors, self.starting_strategy,
+                                                self.get_applicable_identifiers(command.process),
                                                 load, load_request_map)
             if identifier:
                 self.logger.debug(f'ApplicationStartJobs.on_command_added: {command.process.namespec} is planned to'
@@ -717,6 +718,16 @@ class ApplicationStartJobs(ApplicationJobs):
             else:
                 self.logger.debug(f'ApplicationStartJobs.on_command_added: {command.process.namespec} cannot'
                                   f' be started on any of the chosen Supvisors among {self.identifiers}')
+
+    def get_applicable_identifiers(self, process: ProcessStatus) -> NameList:
+        """ Return the selected Supvisors instances whose Supervisor knows the program and has it enabled.
+        The Supvisors instances of a node may not share the same Supervisor configuration.
+
+        :param process: the process to start
+        :return: the identifiers applicable to the process among the selected identifiers
+        """
+        return [identifier for identifier in self.identifiers
+                if identifier in process.info_map and not process.disabled_on(identifier)]
 
     def get_load_requests(self) -> LoadMap:
         """ Extract by Supvisors instance the processes that are planned to start but still stopped
@@ -762,10 +773,13 @@ class ApplicationStartJobs(ApplicationJobs):
             for command in commands:
                 process_load = command.process.rules.expected_load
                 identifier = get_supvisors_instance(self.supvisors, self.starting_strategy,
-                                                    self.identifiers, process_load, load_request_map)
+                                                    self.get_applicable_identifiers(command.process),
+                                                    process_load, load_request_map)
                 self.logger.debug(f'ApplicationStartJobs.distribute_to_single_node: {command.process.namespec}'
                                   f' is planned to start on Supvisors={identifier}')
-                command.update_identifier(identifier)
+                # NOTE: without applicable Supvisors instance, the start will fail at process_job time (no resource)
+                if identifier:
+                    command.update_identifier(identifier)
         else:
             self.logger.debug('ApplicationStartJobs.distribute_to_single_node: no Supvisors instance found to plan'
                               f' the starting of {self.application_name} with load={application_load}')
